@@ -2,7 +2,7 @@ SPECIFICATION TraceSpec
 CONSTANTS FailFastOn = "anyerr"
  FlattenPrefer = "real"
  SkipCancelled = TRUE
- CancelDrains = "either"
+ CancelDrains = "yes"
  ExtraWorkers = 0
 CONSTRAINT Mark
 POSTCONDITION Report
